@@ -101,12 +101,13 @@ def stamp_languages(ctx, report, folder):
 def exactness(ctx, report, folder):
     ev = lambda: SymEvaluator(ctx.index, folder)
     start = len(report.instances)
-    c01.srt_site(ctx, report, ev)
-    c01.microdvd_site(ctx, report, ev, folder)
-    c01.webvtt_site(ctx, report, ev, folder)
+    by = "R-CHAIN on the 25 format pairs (instants on the 40 ms grid every format carries exactly) and C01's lexical-forms fold"
+    report.structural_section("SRT reader (symbolic form)", by, c01.srt_site, ctx, report, ev)
+    report.structural_section("MicroDVD reader (symbolic form)", by, c01.microdvd_site, ctx, report, ev, folder)
+    report.structural_section("WebVTT reader (symbolic form)", by, c01.webvtt_site, ctx, report, ev, folder)
     kept = []
     for inst in report.instances[start:]:
-        if inst.rule in ("R-EXACT", "R-GUARD", "R-AFFINE", "R-FIELD-ROUTING"):
+        if inst.rule in ("R-EXACT", "R-GUARD", "R-AFFINE", "R-FIELD-ROUTING", "R-STRUCTURE"):
             inst.clause = "2"
             kept.append(inst)
     report.instances[start:] = kept
